@@ -130,7 +130,7 @@ def cases(draw):
 
 
 def run_main(rec, seed, shard, nshards, tier):
-    n = {'quick': 50, 'thorough': 600}[tier]
+    n = {'quick': 25, 'thorough': 600}[tier]
     cap = {'quick': 1500, 'thorough': 50000}[tier]
     ml = {'quick': 11, 'thorough': 18}[tier]
     core.hyp_run(rec, prop, cases().map(lambda c: dict(c, cap=cap, max_level=ml)), n, seed)
